@@ -867,6 +867,19 @@ v('C16', 'fire', T, '    ss[m] = 1 - c[m] * c[m]\n', '    ss[m] = s[m] * s[m]\n'
 v('C18', 'fire', T, '    return all(col in data for col in RPH_COLS)', '    return set(RPH_COLS).issubset(data)', 'round-7 seed C18: subset test iterates the values of a Series')
 v('C18', 'silent', T, '    return all(col in data for col in RPH_COLS)', '    return set(RPH_COLS).issubset(data.keys())', 'subset test over the labels')
 
+# round 8
+_CONE = '        coning = np.cross(gyro[:-1], gyro[1:]) / 12\n'
+v('C15', 'fire', S, _CONE,
+  '        coning = (np.roll(gyro[:-1], -1) * np.roll(gyro[1:], -2) - np.roll(gyro[:-1], -2) * np.roll(gyro[1:], -1)) / 12\n',
+  'round-8 seed C15 (one site): cross product by rolls of the flattened readings, components leak from the next sample')
+v('C15', 'silent', S, _CONE,
+  '        coning = (np.roll(gyro[:-1], -1, axis=1) * np.roll(gyro[1:], -2, axis=1) - np.roll(gyro[:-1], -2, axis=1) * np.roll(gyro[1:], -1, axis=1)) / 12\n',
+  'cross product by rolls along the component axis')
+v('C17 C01', 'fire', K, '        cos = 1 - norm2 / 2 + norm4 / 24\n', '        cos = 1 - norm2 * (0.5 - norm2 / 12)\n',
+  'round-8 seed C17: Horner form of the small-angle cosine with the wrong fourth-order coefficient')
+v('C17 C01 C02', 'silent', K, '        cos = 1 - norm2 / 2 + norm4 / 24\n', '        cos = 1 - norm2 * (0.5 - norm2 / 24)\n',
+  'Horner form of the small-angle cosine')
+
 
 # ---------------------------------------------------------------- refactorings (fifth session)
 # Behaviour-preserving refactorings written by sub-agents that saw nothing of /verif (each comes
